@@ -29,6 +29,53 @@ func c03Appendables(c *Ctx, pfx string) {
 				"write buffer reset is dominated by the err==nil edge", "write buffer is released on a path where fsync did not succeed")
 		}
 	}
+	// retryable mode, fsync failed: what was flushed is taken back (the file offset is rewound by the number of flushed
+	// bytes and a seek is requested) so that the retry rewrites it at the same position; the rewind reads
+	// wbufFlushedOffset, so it comes before that counter is reset
+	if f := c.fn(aofT + "sync"); f != nil {
+		rw := pfx + "/singleapp-failed-fsync-rewinds"
+		failed := whenCond(false, func(a string) bool { return strings.Contains(a, "== nil") || strings.HasPrefix(a, "(nil == ") })
+		var rewinds []ssa.Instruction
+		for _, in := range sites(f, storeTo("AppendableFile.fileOffset")) {
+			if strings.Contains(desc(in.(*ssa.Store).Val), "wbufFlushedOffset") {
+				rewinds = append(rewinds, in)
+			}
+		}
+		c.check(len(rewinds) > 0, rw, fnName(f)+":fileOffset-=wbufFlushedOffset", c.pos(f.Pos()), "the file offset is rewound by wbufFlushedOffset", "sync no longer rewinds the file offset by the flushed bytes after a failed fsync")
+		if len(rewinds) > 0 {
+			isRewind := func(x ssa.Instruction) bool {
+				for _, rr := range rewinds {
+					if x == rr {
+						return true
+					}
+				}
+				return false
+			}
+			c.neverAfter(rw, f, "fileOffset rewind", isRewind, "wbufFlushedOffset reset", storeTo("AppendableFile.wbufFlushedOffset"))
+			// on the failed edge every return passes the rewind and the seek request
+			var edges []cfgEdge
+			rb := rewinds[0].Block()
+			for _, pb := range rb.Preds {
+				for si, sb := range pb.Succs {
+					if sb == rb && failed(pb, si) {
+						edges = append(edges, cfgEdge{pb, si})
+					}
+				}
+			}
+			if len(edges) == 0 {
+				c.undecided(rw, fnName(f)+":failed-edge", "the err != nil edge guarding the rewind was not found")
+			} else {
+				e := edges[len(edges)-1:]
+				for _, via := range []struct {
+					n string
+					p sitePred
+				}{{"fileOffset rewind", isRewind}, {"seekRequired=true", storeTo("AppendableFile.seekRequired")}} {
+					q := &pathQ{fn: f, fromEdges: e, to: isReturn, via: via.p}
+					c.check(q.bypass() == nil, rw, fnName(f)+":failed-fsync-passes:"+via.n, c.pos(rewinds[0].Pos()), "every return after a failed fsync passes the "+via.n, "after a failed fsync sync() can return without the "+via.n)
+				}
+			}
+		}
+	}
 	// Fdatasync wrapper really syncs on every build variant
 	if f := c.mustFn(r, "embedded/appendable/fileutils.Fdatasync"); f != nil {
 		c.ruleMustPass(r, f, nil, "fdatasync", callTo("embedded/appendable/fileutils.fdatasync"), nil, false)
